@@ -155,6 +155,64 @@ CHECKS = {
             "and target names, subsets, root chains, corrupted sources, both settings, directory listings), not proved for "
             "the composed system. Known finding: url_encoded_target_name.",
             NOTE + MODELLED, "5/C19"),
+    "C12": ("Coq proofs about a schema-level model of serde parse-and-reserialise (project) and the canonical formatter, "
+            "including injectivity of the canonical form; differential correspondence between model and implementation "
+            "on mechanically enumerated single-point mutants of really signed documents",
+            "Proved for all documents, schemas and signed bytes (16 theorems): an accepted document's retained content has "
+            "the signed bytes as canonical form and is the same value up to member order (canonical form injective at every "
+            "depth); any mutation that alters the retained value is refused; the four role types are pairwise disjoint; "
+            "nothing is lost of covered documents; re-ordering at any depth preserves acceptance; Delegations and "
+            "DelegatedRole are the only object levels without a catch-all (C12_lossless_refuted, known finding F7). "
+            "Correspondence of project/offer with serde_json::from_str::<Signed<T>> plus Root::verify_role on 5.6k (quick) "
+            "or 136k (thorough) mutants with real Ed25519 signatures, comparing the parsed flag, the accepted flag and the "
+            "canonical form of the retained signed part.",
+            NOTE + " Signatures are symbolic in the model (valid for exactly the signed bytes; one key, threshold 1; "
+            "thresholds are C01's subject). Key-identifier checks inside key tables are C13's subject. Dates are modelled "
+            "only in the YYYY-MM-DDTHH:MM:SSZ form. The text level (whitespace, escapes: serde_json's reader) is covered by "
+            "correspondence only. The swap of two delegated roles that share a key (F8) is outside this check. "
+            "Known finding: no_catch_all.", "5/C12"),
+    "C18": ("Coq proofs about a Gallina state-machine model of RetryStream (may_retry, build_request, status "
+            "classification) run against an arbitrary scripted server, by invariants over the script; differential "
+            "correspondence of tough's HttpTransport against a scripted HTTP/1.1 server on loopback, plus an independent "
+            "oracle on the implementation's observables",
+            "Theorems for all fault scripts, resources and tries (no bound): bytes handed to the consumer are a prefix of the "
+            "resource and a stream that ends without error delivered it completely (refuted for the code before the 206 "
+            "repair, C18_prefix_refuted; for that code only against servers that keep honouring ranges), transient failures "
+            "(5xx, stalls with range support) within the budget end in complete delivery, Range is sent only after a success "
+            "response announced Accept-Ranges, 403/404/410 are file-not-found and nothing else is, other 4xx fail with no "
+            "further request, requests <= max(1, tries) (pre-repair refuted: tries+1). Tied to the code by driving "
+            "HttpTransportBuilder/Transport::fetch against the scripted server: exhaustive scripts for tries 1,2 up to "
+            "length tries+2 over 8 entry kinds x Accept-Ranges, sampled for tries 1..4, sizes 0 B..256 KiB, comparing "
+            "delivered bytes, outcome class and the server's request log with the extracted model. Partial: reqwest/hyper "
+            "behaviour (time-out classification, connections, chunking, timing) is observed, not proved; 256 KiB cases are "
+            "predicted by scaling a 64-byte model run.",
+            NOTE + " Modelled not verified: reqwest/hyper/tokio; u32/usize wrap-around of current_try/next_byte; stalls are "
+            "realised by the client's 1 s time-out (fetches whose duration exceeds their scripted stalls are repeated and "
+            "otherwise not judged).", "5/C18"),
+    "C20": ("Coq proof by invariant over arbitrary histories of tuftool root commands (induction on the history, per-command "
+            "preservation lemmas), self-verification theorem for a plain sign with a vm_compute refutation witness for the "
+            "pre-repair code (F13); differential correspondence of the extracted model against the real tuftool binary on "
+            "generated command histories, with an independent oracle on the written files",
+            "Gallina model of tuftool/src/root.rs (init, add-key, remove-key, set-threshold, set-version, bump-version, "
+            "expire, sign with --cross-sign/--ignore-threshold) with SignedRole::new, add_old_signatures, get_root_keys and "
+            "Root::verify_role, over an abstract root.json with symbolic signatures; tied to the code on every run by "
+            "executing generated histories (<=12 invocations, 1..3 keys Ed25519/ECDSA-P256/RSA, role names incl. "
+            "delegated-targets and unknown ones, thresholds, versions to 2^64-1, invalid invocations) step by step against "
+            "the binary built from /repo and comparing exit class and the abstracted file after every step with the "
+            "extracted model; independent oracle on the real files (JSON shape, tough parse, key ids recomputed with "
+            "olpc_cjson+SHA-256, signatures verified with aws-lc-rs, Root::verify_role, bytes unchanged on failure; "
+            "replace-by-rename observed with strace). Theorems, for histories of any length from no file or any file "
+            "satisfying the invariant, both code variants: the file is loadable, every key-table id is the id of its key, "
+            "every signature present is over the current content; every successful subcommand other than sign leaves no "
+            "signatures; sign does not change the content; (repaired variant, ids of different keys different) a sign that "
+            "succeeded without --ignore-threshold and --cross-sign leaves a file accepted by verify_role under its own root "
+            "role - refuted for the pre-repair variant (F13); an error leaves the file unchanged (by construction in the "
+            "model, observed on the binary) and failed commands can be erased from a history.",
+            NOTE + " Modelled not verified: clap argument parsing, serde (de)serialisation of root.json (the file is "
+            "abstracted by the harness), real signature schemes (symbolic), SHA-256 key ids (uninterpreted function, "
+            "injectivity a stated premise of C20_sign_selfverifies), HashMap order (never observed), tempfile+rename "
+            "atomicity (observed with strace); gen-rsa-key not modelled; the clock value used by init is read back from the "
+            "file; tuftool is run with TOKIO_WORKER_THREADS=1.", "5/C20"),
 }
 
 PENDING_REASON = "check not yet built in this revision of /verif (design exists in DESIGN.md section 5); no claim made"
